@@ -80,6 +80,44 @@ class ValueScalar(Value):
         v = int(rhs)
         return ValueScalar(self.v - v)
     
+    def __mul__(self, rhs):
+        v = int(rhs)
+        return ValueScalar(self.v * v)
+    
+    def __truediv__(self, rhs):
+        # Integer division, truncating toward zero
+        v = int(rhs)
+        q = abs(self.v) // abs(v)
+        return ValueScalar(q if (self.v < 0) == (v < 0) else -q)
+    
+    def __floordiv__(self, rhs):
+        return self.__truediv__(rhs)
+    
+    def __mod__(self, rhs):
+        # Remainder takes the sign of the dividend
+        v = int(rhs)
+        m = abs(self.v) % abs(v)
+        return ValueScalar(m if self.v >= 0 else -m)
+    
+    def __or__(self, rhs):
+        v = int(rhs)
+        return ValueScalar(self.v | v)
+    
+    def __xor__(self, rhs):
+        v = int(rhs)
+        return ValueScalar(self.v ^ v)
+    
+    def __lshift__(self, rhs):
+        v = int(rhs)
+        return ValueScalar(self.v << v)
+    
+    def __rshift__(self, rhs):
+        v = int(rhs)
+        return ValueScalar(self.v >> v)
+    
+    def __invert__(self):
+        return ValueScalar(~self.v)
+    
     def __getitem__(self, rng):
         print("getitem")
 
